@@ -15,7 +15,7 @@ from ..metrics_table import NAMES, SQRT_FORMS, T, reference
 
 ID = "C06"
 RULE = ("Per case one (metric, length, input-class, memory-layout) cell: vectors drawn from the metric's domain "
-        "(lengths 1,2,3,4,5,8,17,64; classes plain/zero-containing/integer/large), contiguous, strided-view or "
+        "(lengths 1,2,3,4,5,8,17,64 and, for 4% of cases, 200 / 784; classes plain/zero-containing/integer/large), contiguous, strided-view or "
         "read-only arrays; value compared with a 60-digit Decimal closed form within 1e-9*|ref|+1e-10*sum|terms|+1e-12. "
         "Registry cases: every candidate identifier x every model class: accepted <=> in registry, distance_fn is the "
         "registry entry. Non-trivial: length>=2 and x!=y; distinct = distinct (metric, vectors) hash.")
@@ -41,6 +41,8 @@ def generate(rng, tier, idx):
     name = NAMES[idx % len(NAMES)] if rng.random() < 0.7 else NAMES[int(rng.integers(0, len(NAMES)))]
     kind = T[name][1]
     n = LENGTHS[int(rng.integers(0, len(LENGTHS)))]
+    if rng.random() < 0.04:
+        n = int(rng.choice([200, 784]))
     zeros = bool(rng.random() < 0.25) and kind in ("P", "Q", "N") and T[name][3] == 1
     x = dom_vec(rng, kind, n, zeros=zeros)
     y = dom_vec(rng, kind, n, zeros=zeros)
